@@ -153,6 +153,11 @@ def cases(tier):
         for tail in (b"1" * (mb + 50), b"1;" + b"a" * (mb + 50), b"0\r\nT: " + b"v" * (mb + 50), b"3\r\nabc" + b"\r" * (mb + 50), b"0\r\n" + b"A: b\r\n" * (mb + 9)):
             for rb in (1, 7, 8192):
                 out.append(dict(kind="unterminated-chunked", stream=ch + tail, max_body=mb, recv_bytes=rb, consume_bound=len(ch) + mb + rb))
+    # long but legal chunk-size lines (extension / leading zeros): accepted, however the line is cut into reads
+    for N in (1000, 1030, 1500, 5000):
+        for line in (b"3;a=" + b"x" * N, b"0" * N + b"3", b"3;" + b";".join([b"e"] * (N // 2))):
+            for rb in (1, 7, 1024, 8192):
+                out.append(dict(kind="long-control-line", stream=ch + line + b"\r\nabc\r\n0\r\n\r\n" + S, max_body=10 ** 6, recv_bytes=rb))
     # (4) long numbers
     for nd in list(range(1, 26)) + [4299, 4300, 4301, 5000] + ([100000] if tier == "thorough" else []):
         for lead in (b"1", b"0"):
